@@ -429,14 +429,16 @@ def prepare_attr_value(
     """
     if value is UNCHANGED:
         return UNCHANGED  # Nothing to prepare; `mutate_attr` treats this as a no-op.
+    # The preparer is a method like any other: a subclass (decorated or not) of
+    # the class that declared the attribute may override `_prepare_<attr>`.
+    preparer = (
+        getattr(type(instance), f"_prepare_{attr_spec.name}", None)
+        or attr_spec.prepare
+    )
     value = mutate_value(
         old_value=MISSING,
         new_value=value,
-        prepare=(
-            functools.partial(attr_spec.prepare, instance)
-            if attr_spec.prepare
-            else None
-        ),
+        prepare=(functools.partial(preparer, instance) if preparer else None),
         constructor=attr_spec.constructor,
         expected_type=attr_spec.type,
         attrs=attrs,
